@@ -138,6 +138,35 @@ def coq_assumptions(vfile):
     return rc, out
 
 
+def assumptions_of(vfile):
+    """`Print Assumptions` output of a property file (cached per compiled .vo)"""
+    vo = os.path.join(COQ, vfile + 'o')
+    cache = os.path.join(CACHE, 'assumptions', vfile.replace('/', '_') + '.txt')
+    os.makedirs(os.path.dirname(cache), exist_ok=True)
+    if not os.path.exists(vo):
+        return ''
+    if not os.path.exists(cache) or os.path.getmtime(cache) < os.path.getmtime(vo):
+        with Lock('coq'):
+            rc, out, dt = sh(f'timeout 900 coqc -Q . RS {vfile}', cwd=COQ, timeout=1000)
+        open(cache, 'w').write(out if rc == 0 else '')
+        # coqc rewrote the .vo: keep the cache newer than it
+        os.utime(cache, None)
+    return open(cache).read()
+
+
+def summarize_assumptions(txt):
+    """names of axioms reported (first token of each `name : type` entry under `Axioms:`), or 'Closed under the global context'"""
+    names = set()
+    closed = txt.count('Closed under the global context')
+    for block in re.findall(r'Axioms:\n((?:.*\n)*?)(?=\S.*\n(?!\s)|\Z)', txt):
+        pass
+    for m in re.finditer(r'^([A-Za-z_][\w.]*)\s*$|^([A-Za-z_][\w.]*) :', txt, re.M):
+        n = m.group(1) or m.group(2)
+        if n and '.' in n and not n.startswith('RS.'):
+            names.add(n)
+    return closed, sorted(names)
+
+
 def count_theorems(vfile):
     txt = open(os.path.join(COQ, vfile)).read()
     return re.findall(r'^\s*(?:Theorem|Example)\s+(\w+)', txt, re.M)
